@@ -464,8 +464,9 @@ Corollary C10_do_top : forall eng t g1 g2,
   supported g1 -> supported g2 -> absx g1 = absx g2 ->
   out_rel (do_top uni eng t g1) (do_top uni eng t g2).
 Proof.
-  intros eng t g1 g2 Hf S1 S2 Ha.
-  exact (C10_carrier_independent_fuel eng default_fuel (NTop t) g1 g2 g1 g2 Hf S1 S2 S1 S2 Ha Ha).
+  intros eng t g1 g2 Hf S1 S2 Ha. unfold do_top.
+  generalize dependent default_fuel. intros fuel Hf.
+  exact (C10_carrier_independent_fuel eng fuel (NTop t) g1 g2 g1 g2 Hf S1 S2 S1 S2 Ha Ha).
 Qed.
 
 (** in particular: a value is returned for one representation iff it is for
